@@ -5,3 +5,5 @@ open AgdbServer.Server
 #print axioms C25_audit
 #print axioms C25_kind_table
 #print axioms C25_read_batch_pure
+#print axioms C25_rename_audit_dir
+#print axioms C25_rename_audit_dir_counterexample
